@@ -611,6 +611,19 @@ func validate(data []byte, m model, r *fw.R) (list []finding, key [20]byte) {
 			if !ok {
 				return
 			}
+			if _, isShading := fd["ShadingType"]; isShading {
+				// 8.7.4.5: the Function of an axial or radial shading is a function dictionary
+				// (FunctionType and Domain are required in every function, 7.10.1)
+				if fn, ok := d.Resolve(fd["Function"]).(pdfread.Dict); ok {
+					_, hasType := fn["FunctionType"].(int64)
+					dom, _ := d.Resolve(fn["Domain"]).(pdfread.Array)
+					if !hasType || len(dom) < 2 {
+						f.add("shading-function", "object %d: the Function of a shading is %s, not a function dictionary (FunctionType and Domain are required)", n, pdfread.Fmt(fn))
+					}
+				} else if _, has := fd["Function"]; has {
+					f.add("shading-function", "object %d: the Function of a shading is not a dictionary", n)
+				}
+			}
 			ft, ok := fd["FunctionType"].(int64)
 			if !ok || ft != 3 {
 				return
@@ -1146,6 +1159,63 @@ func longDocs(full []action) fw.Family {
 
 var allOpts = []options{{true, true}, {false, true}, {true, false}, {false, false}}
 
+// gradientStopActions: one gradient fill per layout of its stops: every subset of at most 4 of the
+// offsets {0, .25, .5, .75, 1} (also none), every stop opaque or fully transparent, linear and radial.
+// The writer turns the stops into a stitching function with padding pieces before the first and after
+// the last stop, and divides the colours by their alpha.
+func gradientStopActions() []action {
+	offs := []float64{0, 0.25, 0.5, 0.75, 1}
+	var as []action
+	for mask := 0; mask < 1<<len(offs); mask++ {
+		var sel []float64
+		for k, o := range offs {
+			if mask&(1<<k) != 0 {
+				sel = append(sel, o)
+			}
+		}
+		if len(sel) > 4 {
+			continue
+		}
+		for al := 0; al < 1<<len(sel); al++ {
+			for _, radial := range []bool{false, true} {
+				sel, al, radial := sel, al, radial
+				var parts []string
+				for k, o := range sel {
+					parts = append(parts, fmt.Sprintf("%g:%s", o, []string{"opaque", "transparent"}[(al>>k)&1]))
+				}
+				kind := "linear"
+				if radial {
+					kind = "radial"
+				}
+				as = append(as, pathAction(fmt.Sprintf("Path(fill=%s-gradient,stops=[%s])", kind, strings.Join(parts, " ")), func() (*canvas.Path, canvas.Style) {
+					cols := []color.RGBA{canvas.Red, canvas.Green, canvas.Blue, canvas.Black}
+					add := func(add func(float64, color.RGBA)) {
+						for k, o := range sel {
+							c := cols[k]
+							if (al>>k)&1 != 0 {
+								c = canvas.Transparent
+							}
+							add(o, c)
+						}
+					}
+					st := canvas.DefaultStyle
+					if radial {
+						g := canvas.NewRadialGradient(canvas.Point{X: 5, Y: 3}, 0, canvas.Point{X: 5, Y: 3}, 5)
+						add(func(o float64, c color.RGBA) { g.Add(o, c) })
+						st.Fill = canvas.Paint{Gradient: g}
+					} else {
+						g := canvas.NewLinearGradient(canvas.Point{X: 0, Y: 0}, canvas.Point{X: 10, Y: 0})
+						add(func(o float64, c color.RGBA) { g.Add(o, c) })
+						st.Fill = canvas.Paint{Gradient: g}
+					}
+					return tri(), st
+				}))
+			}
+		}
+	}
+	return as
+}
+
 func families(tier string) []fw.Family {
 	full := alphabet()
 	var fs []fw.Family
@@ -1153,6 +1223,8 @@ func families(tier string) []fw.Family {
 		fs = append(fs, family(fmt.Sprintf("histories of length %d over %d calls x 4 option sets", d, len(full)), full, d, allOpts))
 	}
 	fs = append(fs, longDocs(full))
+	ga := gradientStopActions()
+	fs = append(fs, family(fmt.Sprintf("one gradient fill over %d layouts of its stops (offsets, opaque/transparent, linear/radial) x Compress on/off", len(ga)), ga, 1, allOpts[:2]))
 	// fonts across pages: longer histories over the texts and NewPage only (what a writer remembers
 	// about a font - object numbers, resource names, subsets - per document or per page)
 	var fontAlpha []action
